@@ -173,12 +173,19 @@ def threads(ops_per_thread, preempt, prefill):
         ly, w = build(c, clock, 4, 4)
         if c.mode != "sym":
             shim_locks(ly)          # the scheduler needs the shims in replay too
-        for i in range(prefill):
+        old_items = []
+        for i in range(abs(prefill)):
             it = w.waste_factory(waste_type=WasteType.MISFOLDED_PROTEIN, content={"raw_input": "x"}, source="pre")
             w.items.append(it)
             ly._queue.append(it)
             ly._total_ingested += 1
+            old_items.append(it)
+        if prefill < 0:
+            clock.advance_by(2 * RET_MS)      # negative prefill: the pre-filled items are past retention
+        else:
+            old_items = []
         results = {}
+        expired_reported = [0]
 
         def do(op, key):
             if op == "ingest_misfolded":
@@ -194,8 +201,8 @@ def threads(ops_per_thread, preempt, prefill):
             elif op == "digest_1":
                 results[key] = ly.digest(1)
             elif op == "autophagy":
-                qb = list(ly._queue)
                 results[key] = ly.autophagy()
+                expired_reported[0] += results[key]
 
         def mk(ti):
             def run():
@@ -219,14 +226,22 @@ def threads(ops_per_thread, preempt, prefill):
         q = list(ly._queue)
         c.check("C13.b", len(q) <= ly.max_queue_size, {"what": "queue above max_queue_size", "len": len(q), **info})
         ids_q = [id(x) for x in q]
+        n_gone = 0
         for it in w.items:
             n_q = ids_q.count(id(it))
             n_d = sum(1 for x in w.digested if x is it)
             n_e = sum(1 for x in w.errored if x is it)
-            c.check("C13.c", n_q + n_d + n_e == 1, {"what": "item lost or duplicated under this schedule", "queued": n_q, "digested": n_d, "errors": n_e, **info})
+            is_old = any(it is x for x in old_items)
+            c.check("C13.c", n_q + n_d + n_e == 1 or (n_q + n_d + n_e == 0 and is_old),
+                    {"what": "item lost or duplicated under this schedule (only items past retention may disappear, by autophagy)",
+                     "queued": n_q, "digested": n_d, "errors": n_e, "past_retention": is_old, **info})
+            n_gone += (n_q + n_d + n_e == 0)
             if it.waste_type is WasteType.TOXIC_BYPRODUCT:
                 n_cb = sum(1 for x in w.toxic_cb if x is it)
                 c.check("C13.d", n_cb <= 1 and (n_cb == 1) == (n_d + n_e == 1), {"what": "toxic callback count", "callbacks": n_cb, **info})
+        c.check("C13.c-autophagy", n_gone == expired_reported[0], {"what": "items that disappeared != items autophagy reported as expired", "gone": n_gone, "reported": expired_reported[0], **info})
+        if False:
+            pass
         c.check("C13.c-count", ly._total_ingested == len(w.items), {"what": "total_ingested lost an update", "counter": ly._total_ingested, "items": len(w.items), **info})
         c.check("C13.c-count", ly._total_digested == len(w.digested), {"what": "total_digested lost an update", "counter": ly._total_digested, "digested": len(w.digested), **info})
         c.observe("queue", len(q))
@@ -235,7 +250,8 @@ def threads(ops_per_thread, preempt, prefill):
 
 
 TH_Q = [([["ingest_misfolded"], ["ingest_misfolded"]], 1), ([["ingest_misfolded"], ["digest_all"]], 1), ([["digest_all"], ["digest_1"]], 2),
-        ([["ingest_sensitive"], ["digest_all"]], 1), ([["ingest_misfolded", "ingest_misfolded"], ["digest_1"]], 1)]
+        ([["ingest_sensitive"], ["digest_all"]], 1), ([["ingest_misfolded", "ingest_misfolded"], ["digest_1"]], 1),
+        ([["autophagy"], ["ingest_sensitive"]], -1), ([["autophagy"], ["digest_all"]], -2), ([["autophagy"], ["autophagy"]], -1)]
 TH_T = TH_Q + [([["ingest_misfolded"], ["ingest_misfolded"]], 3), ([["digest_all"], ["digest_all"]], 2), ([["ingest_sensitive"], ["ingest_misfolded"]], 2),
                ([["ingest_misfolded", "digest_all"], ["ingest_misfolded"]], 1), ([["ingest_misfolded"], ["ingest_misfolded"], ["digest_all"]], 1)]
 
@@ -250,7 +266,7 @@ HARNESSES = {
     "threads": {"make": threads, "witness_every": 23,
                 "jobs": lambda tier: ([{"ops_per_thread": o, "preempt": 1, "prefill": p} for o, p in TH_Q] if tier == "quick" else
                                       [{"ops_per_thread": o, "preempt": 2, "prefill": p} for o, p in TH_T]),
-                "clauses": ["C13.a", "C13.b", "C13.c", "C13.c-count"]},
+                "clauses": ["C13.a", "C13.b", "C13.c", "C13.c-count", "C13.c-autophagy"]},
 }
 
 META = {
@@ -260,7 +276,7 @@ META = {
         "technique": "symbolic execution of lysosome.py histories (symbolic capacity/threshold/clock via z3, adversarial digesters, lock shim), identity-based conservation oracle",
     },
     "files": ["operon_ai/organelles/lysosome.py"],
-    "bounds": {"quick": "sequential: k=5 calls over 7 operations; max_queue_size 2..8 and auto_digest_threshold 1..8 symbolic. threads: 5 configurations of 2 threads x 1-2 operations, preemption bound 1, line granularity, max_queue_size 2..4, threshold 1..4 symbolic",
+    "bounds": {"quick": "sequential: k=5 calls over 7 operations; max_queue_size 2..8 and auto_digest_threshold 1..8 symbolic. threads: 8 configurations of 2 threads x 1-2 operations (incl. autophagy racing ingest/digest over items past retention), preemption bound 1, line granularity, max_queue_size 2..4, threshold 1..4 symbolic",
                "thorough": "sequential k=6 over 7 operations, k=5 over 10; threads: 10 configurations incl. 3 threads, preemption bound 2"},
     "outside": ["thread schedules beyond the preemption bound, preemption inside a source line", "histories longer than k (the queue can hold at most k items here, so capacities above k behave as unbounded)", "concurrent callers", "autophagy daemon thread"],
     "float_argument": "none",
